@@ -113,6 +113,36 @@ def check_is_modifier(mod, rep, R):
               '_is_modifier(z) is z.is_functor and z.left == z.right (%s)' % detail, '_is_modifier: %s' % detail)
 
 
+def check_is_type_raised(mod, rep, R):
+    """_is_type_raised(z): z is a functor whose argument is a functor with the same result as z -- T/(T\\X), T\\(T/X), and the
+    same-direction shapes T/(T/X), T\\(T\\X) as well (the guard of the conjunction rule keeps all of them out)"""
+    from . import boolfn as bf
+    fn = mod.get('_is_type_raised', required=False)
+    if fn is None:
+        return
+    p = fn.args.args[0].arg
+    X, XR = N(p), A(N(p), 'right')
+    pairs = [(('truthy', A(X, 'is_functor')), ('truthy', A(X, 'is_atomic'))), (('truthy', A(XR, 'is_functor')), ('truthy', A(XR, 'is_atomic')))]
+
+    def cons(sigma):
+        for f_, a_ in pairs:
+            if f_ in sigma and a_ in sigma and sigma[f_] == sigma[a_]:
+                return False
+        # the argument of an atom does not exist: no test on it is looked at
+        return True
+    same = bf.T(('cmp', '==', A(XR, 'left'), A(X, 'left')))
+    same2 = bf.T(('cmp', '==', A(X, 'left'), A(XR, 'left')))
+    ok, detail = False, ''
+    for outer in (bf.NOT(bf.T(A(X, 'is_atomic'))), bf.T(A(X, 'is_functor'))):
+        for inner in (bf.T(A(XR, 'is_functor')), bf.NOT(bf.T(A(XR, 'is_atomic')))):
+            for eq in (same, same2):
+                if not ok:
+                    ok, detail = bf.matches(fn, bf.AND(outer, inner, eq), cons)
+    rep.check(ok, R, '%s:%s _is_type_raised' % (mod.rel, fn.lineno), mod.rel + ':_is_type_raised',
+              '_is_type_raised(z) is: z is a functor, its argument is a functor, and that argument\'s result is z\'s result (%s)' % detail,
+              '_is_type_raised: %s -- the conjunction rule then coordinates a type-raised category (or refuses one that is not)' % detail)
+
+
 def _const_items(mod, node, env, depth):
     """values a literal iterable yields: strings of a display / text, integers of range(<constants>)"""
     if isinstance(node, ast.Constant) and isinstance(node.value, str):
